@@ -584,17 +584,18 @@ def noBuildEv : Ev → Bool
 /-- the events of run `r` that are not build commands -/
 def projR (r : Nat) (tr : List (Nat × Ev)) : List Ev := (proj r tr).filter noBuildEv
 
-/-- every build command of `r` succeeds (or `-B`) -/
+/-- no build command of `r` can fail: every one succeeds, or `-B`, or the run
+never gets as far as building (unknown adapter) -/
 def BuildsOk (cf : Conf) (r : Nat) : Prop :=
-  cf.doBuilds = false ∨ ∀ b ∈ (cf.run r).builds, cf.buildOk b = true
+  (cf.run r).adapterKnown = false ∨ cf.doBuilds = false ∨ ∀ b ∈ (cf.run r).builds, cf.buildOk b = true
 
 /-- the build table only says "failed" of builds that do fail -/
 def BstSound (cf : Conf) (g : G) : Prop := ∀ b, g.bst b = some false → cf.buildOk b = false
 
 theorem NoBuild.buildsOk {cf : Conf} {r : Nat} (h : NoBuild cf r) : BuildsOk cf r := by
   rcases h with h | h
-  · exact Or.inl h
-  · exact Or.inr (by rw [h]; simp)
+  · exact Or.inr (Or.inl h)
+  · exact Or.inr (Or.inr (by rw [h]; simp))
 
 theorem doBuilds_sound (buildOk : Nat → Bool) (bst : Nat → Option Bool) (bs : List Nat)
     (h : ∀ b, bst b = some false → buildOk b = false) :
@@ -688,7 +689,8 @@ theorem execRun_buildsOk (cf : Conf) (g : G) (r : Nat) (hb : BuildsOk cf r) (hs 
       · exact absurd (Or.inr (Or.inl hd)) hc
       · rfl
     have hall : ∀ b ∈ (cf.run r).builds, cf.buildOk b = true := by
-      rcases hb with hb | hb
+      rcases hb with hb | hb | hb
+      · exact absurd (Or.inl hb) hc
       · rw [hdo] at hb; exact absurd hb (by simp)
       · exact hb
     have hok := doBuilds_ok cf.buildOk g.bst (cf.run r).builds hs hall
@@ -802,5 +804,240 @@ theorem seq_run_spec_builds (cf : Conf) (k : Kind) (r : Nat) (hb : BuildsOk cf r
           simp [projR, proj_tag_other r p hpr]
         simp only [hc, projR_append, hproj, List.nil_append]
         exact ⟨i1, i2, i3, fun hfin hin => i4 hfin (n3 hin)⟩
+
+end RB.Sched
+
+namespace RB.Sched
+open RB.Term
+
+/-! ### runs with a failing build -/
+
+/-- the build table only says "built" of builds that succeed -/
+def BstSoundT (cf : Conf) (g : G) : Prop := ∀ b, g.bst b = some true → cf.buildOk b = true
+
+/-- the run has a build command that fails (and gets as far as building) -/
+def FailBuild (cf : Conf) (r : Nat) : Prop :=
+  (cf.run r).adapterKnown = true ∧ cf.doBuilds = true ∧ ∃ b ∈ (cf.run r).builds, cf.buildOk b = false
+
+/-- what a failed build leaves of a run: command line built, marked to fail, nothing else -/
+def markB (s : RunSt) : RunSt := { s with cmdBuilt := true, t := { s.t with failNow := true } }
+
+theorem buildsOk_or_failBuild (cf : Conf) (r : Nat) : BuildsOk cf r ∨ FailBuild cf r := by
+  unfold BuildsOk FailBuild
+  cases ha : (cf.run r).adapterKnown
+  · left; left; rfl
+  · cases hd : cf.doBuilds
+    · left; right; left; rfl
+    · by_cases h : ∀ b ∈ (cf.run r).builds, cf.buildOk b = true
+      · left; right; right; exact h
+      · right
+        refine ⟨rfl, rfl, ?_⟩
+        apply Classical.byContradiction
+        intro hne
+        apply h
+        intro b hb
+        cases hok : cf.buildOk b
+        · exact absurd ⟨b, hb, hok⟩ hne
+        · rfl
+
+theorem doBuilds_soundT (buildOk : Nat → Bool) (bst : Nat → Option Bool) (bs : List Nat)
+    (h : ∀ b, bst b = some true → buildOk b = true) :
+    ∀ b, (doBuilds buildOk bst bs).1 b = some true → buildOk b = true := by
+  induction bs generalizing bst with
+  | nil => simpa [doBuilds] using h
+  | cons i is ih =>
+    unfold doBuilds
+    split
+    · exact ih bst h
+    · exact h
+    · split
+      · rename_i hok
+        apply ih
+        intro b hb
+        by_cases e : b = i
+        · subst e; exact hok
+        · simp only [updB, e, if_false] at hb; exact h b hb
+      · intro b hb
+        by_cases e : b = i
+        · subst e; simp [updB] at hb
+        · simp only [updB, e, if_false] at hb; exact h b hb
+
+theorem doBuilds_fail (buildOk : Nat → Bool) (bst : Nat → Option Bool) (bs : List Nat)
+    (h : ∀ b, bst b = some true → buildOk b = true) (hbad : ∃ b ∈ bs, buildOk b = false) :
+    (doBuilds buildOk bst bs).2.1 = false := by
+  induction bs generalizing bst with
+  | nil => obtain ⟨b, hb, _⟩ := hbad; simp at hb
+  | cons i is ih =>
+    obtain ⟨b, hb, hbf⟩ := hbad
+    unfold doBuilds
+    split
+    · rename_i ht
+      have hi := h i ht
+      have : b ≠ i := by intro e; subst e; rw [hi] at hbf; exact absurd hbf (by simp)
+      exact ih bst h ⟨b, by simpa [this] using hb, hbf⟩
+    · rfl
+    · cases hok : buildOk i
+      · simp
+      · simp only [if_true]
+        have : b ≠ i := by intro e; subst e; rw [hok] at hbf; exact absurd hbf (by simp)
+        apply ih
+        · intro c hc
+          by_cases e : c = i
+          · subst e; exact hok
+          · simp only [updB, e, if_false] at hc; exact h c hc
+        · exact ⟨b, by simpa [this] using hb, hbf⟩
+
+theorem execRun_bstSoundT (cf : Conf) (g : G) (p : Nat) (h : BstSoundT cf g) : BstSoundT cf (execRun cf g p).g := by
+  unfold execRun
+  simp only
+  split
+  · exact h
+  · split
+    · exact doBuilds_soundT cf.buildOk g.bst _ h
+    · exact doBuilds_soundT cf.buildOk g.bst _ h
+
+theorem nextOf_bstSoundT (cf : Conf) (k : Kind) (tasks : List Nat) (p : Nat) (a : StepRes)
+    (h : BstSoundT cf a.g) : BstSoundT cf (nextOf cf k tasks p a).1 := by
+  unfold nextOf
+  split
+  · exact h
+  · split
+    · split
+      · intro b hb
+        rw [(withoutMissing_spec cf p a.g (tasks.erase p)).2.2.2.2.2] at hb
+        exact h b hb
+      · exact h
+    · exact h
+
+theorem execRun_failBuild (cf : Conf) (g : G) (r : Nat) (hf : FailBuild cf r) (hs : BstSoundT cf g)
+    (hnt : shouldTerminate (cf.run r).cfg (g.rs r).t = false) :
+    (execRun cf g r).g.rs = upd g.rs r (markB (g.rs r)) ∧
+    (execRun cf g r).evs.filter noBuildEv = [] ∧
+    (execRun cf g r).failedBuilding = true := by
+  obtain ⟨ha, hd, hbad⟩ := hf
+  have hne : (cf.run r).builds ≠ [] := by
+    obtain ⟨b, hb, _⟩ := hbad; intro e; rw [e] at hb; simp at hb
+  unfold execRun
+  have hc : ¬ ((cf.run r).adapterKnown = false ∨ cf.doBuilds = false ∨ (cf.run r).builds = [] ∨
+      shouldTerminate (cf.run r).cfg (g.rs r).t = true) := by
+    simp [ha, hd, hne, hnt]
+  have hfail := doBuilds_fail cf.buildOk g.bst (cf.run r).builds hs hbad
+  simp only [hc, if_false, hfail, if_true, and_true, true_and]
+  first
+    | exact filter_build_map _
+    | exact ⟨rfl, filter_build_map _⟩
+
+/-- a run outside the task list is not touched -/
+theorem seqLoop_untouched (cf : Conf) (k : Kind) (r : Nat) :
+    ∀ (cs : List Nat) (g : G) (tasks : List Nat), r ∉ tasks →
+      (seqLoop cf k g tasks cs).g.rs r = g.rs r ∧ proj r (seqLoop cf k g tasks cs).trace = [] := by
+  intro cs
+  induction cs with
+  | nil => intro g tasks _; cases tasks <;> simp [seqLoop, proj]
+  | cons c cs ih =>
+    intro g tasks hr
+    cases tasks with
+    | nil => simp [seqLoop, proj]
+    | cons t ts =>
+      have hpm := pick_mem k t ts c
+      simp only [seqLoop]
+      generalize pick k (t :: ts) c = p at hpm
+      have hpr : r ≠ p := fun e => hr (e ▸ hpm)
+      have hsub := nextOf_subset cf k (t :: ts) p (execRun cf g p) hpm
+      have hr' : r ∉ (nextOf cf k (t :: ts) p (execRun cf g p)).2 := fun h => hr (hsub r h)
+      obtain ⟨i1, i2⟩ := ih (nextOf cf k (t :: ts) p (execRun cf g p)).1 _ hr'
+      have hstate : (nextOf cf k (t :: ts) p (execRun cf g p)).1.rs r = g.rs r := by
+        have h0 := execRun_other cf g p r hpr
+        unfold nextOf
+        split
+        · exact h0
+        · split
+          · split
+            · rw [(withoutMissing_spec cf p (execRun cf g p).g ((t :: ts).erase p)).2.1 r
+                (Or.inl (fun h => hr (List.mem_of_mem_erase h)))]
+              exact h0
+            · exact h0
+          · exact h0
+      refine ⟨by rw [i1, hstate], ?_⟩
+      rw [proj_append, proj_tag_other r p (fun e => hpr e.symm), i2]; rfl
+
+/-- a run with a failing build ends marked, with nothing started and nothing
+recorded, whatever the order -/
+theorem seq_run_spec_failbuild (cf : Conf) (k : Kind) (r : Nat) (hf : FailBuild cf r) :
+    ∀ (cs : List Nat) (g : G) (tasks : List Nat), tasks.Nodup → NoSharedNF cf r g → BstSoundT cf g →
+      (r ∈ tasks → shouldTerminate (cf.run r).cfg (g.rs r).t = false) →
+      projR r (seqLoop cf k g tasks cs).trace = [] ∧
+      ((seqLoop cf k g tasks cs).finished = true → r ∈ tasks →
+          (seqLoop cf k g tasks cs).g.rs r = markB (g.rs r)) := by
+  intro cs
+  induction cs with
+  | nil =>
+    intro g tasks _ _ _ _
+    cases tasks <;> simp [seqLoop, proj, projR]
+  | cons c cs ih =>
+    intro g tasks hnd hns hsound hd0
+    cases tasks with
+    | nil => simp [seqLoop, proj, projR]
+    | cons t ts =>
+      have hpm := pick_mem k t ts c
+      simp only [seqLoop]
+      generalize hp : pick k (t :: ts) c = p at hpm
+      by_cases hpr : p = r
+      · subst hpr
+        obtain ⟨e1, e2, e3⟩ := execRun_failBuild cf g p hf hsound (hd0 hpm)
+        have hnext : nextOf cf k (t :: ts) p (execRun cf g p) = ((execRun cf g p).g, (t :: ts).erase p) := by
+          simp [nextOf, e3]
+        have hnotin : p ∉ (t :: ts).erase p := fun h => ((List.Nodup.mem_erase_iff hnd).mp h).1 rfl
+        rw [hnext]
+        obtain ⟨u1, u2⟩ := seqLoop_untouched cf k p cs (execRun cf g p).g _ hnotin
+        refine ⟨?_, ?_⟩
+        · rw [projR_append]
+          simp only [projR, proj_tag_same, e2, u2]; rfl
+        · intro _ _
+          rw [u1, e1, upd_same]
+      · have hrp : r ≠ p := fun e => hpr e.symm
+        obtain ⟨n1, n2, n3⟩ := nextOf_other cf k g (t :: ts) p r hrp hns
+        have hnd' := nextOf_nodup cf k (t :: ts) p (execRun cf g p) hnd
+        have hsub := nextOf_subset cf k (t :: ts) p (execRun cf g p) hpm
+        have hsound' : BstSoundT cf (nextOf cf k (t :: ts) p (execRun cf g p)).1 :=
+          nextOf_bstSoundT cf k (t :: ts) p _ (execRun_bstSoundT cf g p hsound)
+        obtain ⟨i1, i2⟩ := ih (nextOf cf k (t :: ts) p (execRun cf g p)).1 (nextOf cf k (t :: ts) p (execRun cf g p)).2
+          hnd' n2 hsound' (by rw [n1]; exact fun h => hd0 (hsub r h))
+        rw [n1] at i2
+        have hproj : projR r ((execRun cf g p).evs.map (fun e => (p, e))) = [] := by
+          simp [projR, proj_tag_other r p hpr]
+        refine ⟨by rw [projR_append, hproj, i1]; rfl, fun hfin hin => i2 hfin (n3 hin)⟩
+
+/-- the trace without build commands (which run triggers a shared build depends on the order) -/
+def noBuildT (p : Nat × Ev) : Bool := noBuildEv p.2
+
+theorem proj_filter_noBuild (r : Nat) (tr : List (Nat × Ev)) : proj r (tr.filter noBuildT) = projR r tr := by
+  induction tr with
+  | nil => rfl
+  | cons p tr ih =>
+    obtain ⟨q, e⟩ := p
+    by_cases hq : q = r
+    · subst hq
+      cases hb : noBuildEv e <;> simp_all [proj, projR, noBuildT, List.filter_cons]
+    · cases hb : noBuildEv e <;> simp_all [proj, projR, noBuildT, List.filter_cons]
+
+theorem uncompleted_not_terminated (cf : Conf) (g : G) (order : List Nat) (r : Nat)
+    (h : r ∈ uncompleted cf g order) : shouldTerminate (cf.run r).cfg (g.rs r).t = false := by
+  simp only [uncompleted, List.mem_filter, Bool.not_eq_true'] at h
+  exact h.2
+
+end RB.Sched
+
+namespace RB.Sched
+
+/-- a session starts with an empty build table -/
+theorem bstSound_of_fresh (cf : Conf) (g : G) (h : ∀ b, g.bst b = none) : BstSound cf g := by
+  intro b hb; rw [h b] at hb; exact absurd hb (by simp)
+
+theorem bstSoundT_of_fresh (cf : Conf) (g : G) (h : ∀ b, g.bst b = none) : BstSoundT cf g := by
+  intro b hb; rw [h b] at hb; exact absurd hb (by simp)
+
+theorem projR_of_proj_nil (r : Nat) (tr : List (Nat × Term.Ev)) (h : proj r tr = []) : projR r tr = [] := by
+  simp [projR, h]
 
 end RB.Sched
